@@ -155,6 +155,22 @@ def run(ck):
         if n_far != n_near:
             ck.disagree(key='Path.intersect/far-from-origin', site='svgpathtools/path.py:Path.intersect', what='%s translated by %r: %d crossings reported, %d near the origin' % (name, far, n_far, n_near),
                         case={'family': name, 'far': True}, expected=n_near, observed=n_far, driver='path')
+        # a history: intersect, move an end point through the Path interface so that a *new* crossing appears on the moved segment,
+        # intersect again: must agree with a Path freshly built from the same segments
+        import copy
+        for src, other in ((p1, p2), (p2, p1)):
+            q = sp.Path(*[copy.deepcopy(s_) for s_ in src])
+            if not isinstance(q[-1], sp.Line):
+                continue
+            q.intersect(other)
+            xmin, xmax, ymin, ymax = other.bbox()
+            q.end = complex(2 * xmax - xmin + 3, 2 * ymax - ymin + 5) if abs(q[-1].start - complex(xmin, ymin)) < abs(q[-1].start - complex(xmax, ymax)) else complex(2 * xmin - xmax - 3, 2 * ymin - ymax - 5)
+            n_hist = len(q.intersect(other))
+            n_fresh = len(sp.Path(*[copy.deepcopy(s_) for s_ in q]).intersect(other))
+            ck.case(fp=('path-history', name, src is p1), nontrivial=True)
+            if n_hist != n_fresh:
+                ck.disagree(key='Path.intersect/after-moving-an-end-point', site='svgpathtools/path.py:Path.intersect', what='%s: intersect; path.end = z; intersect reports %d crossings, a fresh Path of the same segments %d' % (name, n_hist, n_fresh),
+                            case={'family': name, 'history': True}, expected=n_fresh, observed=n_hist, driver='path')
         for A, B, sw in ((p1, p2, False), (p2, p1, True)):
             res = A.intersect(B)
             for (i1, i2, pt) in exp:
